@@ -9,7 +9,7 @@
    it is notified of its cancellation) and every script (registrations, cancellations, clock advances,
    NOHANG and sleeping iterations). *)
 From Coq Require Import ZArith List.
-From Tickit Require Import LoopDefs LoopSpec LoopAsIs LoopProofs LoopRefine LoopOrder LoopSpecEq LoopHeap LoopHeapProofs.
+From Tickit Require Import LoopDefs LoopSpec LoopAsIs LoopProofs LoopRefine LoopOrder LoopSpecEq LoopHeap LoopHeapProofs LoopChain LoopChainProofs.
 Import ListNotations.
 Local Open Scope Z_scope.
 
@@ -128,6 +128,37 @@ Theorem C17_heap_seeded_leaks :
     Some ([OEv (mkE 0 KLater EV_UNBIND 0 0 0); OPoll 0; OEv (mkE 1 KLater (EV_FIRE + EV_UNBIND) 1 0 0)], true).
 Proof. exact heap_seeded_leaks. Qed.
 Print Assumptions C17_heap_seeded_leaks.
+
+(* ---- the watch chains that are walked while callbacks cancel and register (signal watches,
+   process watches): the heap level -- nodes at addresses, a cursor that cancellation moves on, the
+   "registered before this walk" test -- reads no freed node, frees every node, and logs what the
+   snapshot specification (identities only) logs; for every script, every callback table *)
+Theorem C17_chain_safe : forall proc env ops,
+  exists f0, forall fuel, (f0 <= fuel)%nat -> h_crun proc env fuel ops = Some (l_run proc env ops, true).
+Proof. exact chain_safe. Qed.
+Print Assumptions C17_chain_safe.
+
+(* a process watch is invoked at most once, and every invocation reports a status that the
+   script (the waitpid oracle) supplied for that very child *)
+Theorem C17_process_once_status : forall env ops,
+  (forall id, (pfires id (l_run true env ops) <= 1)%nat) /\
+  (forall e, In (OEv e) (l_run true env ops) -> e_flags e = EV_FIRE -> In (e_id e, e_x e) (supplied ops)).
+Proof. exact process_once_status. Qed.
+Print Assumptions C17_process_once_status.
+
+(* and none is left waiting: after the walk of a SIGCHLD dispatch, a watch registered before it
+   that is still in the chain and has not been told of an exit has no status waiting for it *)
+Theorem C17_process_not_left_waiting : forall env ops arg,
+  let s := fold_left (l_op true env) ops lst0 in
+  let s' := l_op true env s (KWalk arg) in
+  forall w, In w (l_chain s') -> c_id w < l_next s -> c_ex w = false -> forall st, ~ In (c_key w, st) (l_exits s').
+Proof. exact process_not_left_waiting. Qed.
+Print Assumptions C17_process_not_left_waiting.
+
+Theorem C17_process_witness :
+  l_run true pw_env pw_ops = pw_log /\ h_crun true pw_env 50 pw_ops = Some (pw_log, true).
+Proof. exact process_witness. Qed.
+Print Assumptions C17_process_witness.
 
 (* ---- the pinned code *)
 Theorem C17_refuted_use_after_free : a_run true w22a_env 100 w22a_ops = None.
